@@ -547,7 +547,45 @@ def evalLits (ctor : String → String → CRes GoVal) (zero : Ty → CRes GoVal
         (evalLits ctor zero fuel ss fs rest).bind fun vs => .ok ((k, v) :: vs)
 end
 
-def goZero (fuel : Nat) (ss : Schemas) (t : Ty) : CRes GoVal := CRes.ofD (goDecode fuel ss t .null)
+/-- the zero value of the Go type of an IR type (what `goDecode … null` leaves behind), computed
+    without looking below a nil pointer: `goDecode` evaluates the pointee even when the document is
+    `null` (compiled Lean is strict), which is exponential on self-referential optional members -/
+def goZero : Nat → Schemas → Ty → CRes GoVal
+  | 0, _, _ => .fuel
+  | fuel + 1, ss, t =>
+    match t with
+    | .scalar kind _ _ m =>
+      if kind = "bytes" then .unsup "bytes"
+      else if kind = "any" then .ok .nil
+      else if m.nullable then .ok .nil
+      else CRes.ofD (decodeScalar kind (hasHint m "string_format_datetime") .null)
+    | .array e _ => if isByteElem e then .unsup "[]uint8 is []byte (base64)" else .ok .nil
+    | .map idx _ _ =>
+      (match idx with
+       | .scalar "string" _ _ _ => .ok .nil
+       | _ => .unsup "map with non-string index")
+    | .ref pkg name m =>
+      if m.nullable then
+        (match Schemas.locateObject ss pkg name with
+         | none => .unsup "dangling reference"
+         | some _ => .ok .nil)
+      else
+        match Schemas.locateObject ss pkg name with
+        | none => .unsup "dangling reference"
+        | some o =>
+          match o.ty with
+          | .struct fields _ none _ =>
+            (mapCRes (fun (f : Field) => (goZero fuel ss f.ty).map fun v => (f.name, !f.required, v)) fields).map .struct
+          | .struct fields _ (some _) _ => .ok (.union (fields.map fun f => (f.name, .nil)))
+          | .enum (v0 :: _) _ => CRes.ofD (decodeScalar v0.kind false .null)
+          | .scalar kind _ _ om =>
+            if kind = "bytes" then .unsup "bytes"
+            else CRes.ofD (decodeScalar kind (hasHint om "string_format_datetime") .null)
+          | .array .. | .map .. => goZero fuel ss o.ty
+          | .ref p n om => goZero fuel ss (.ref p n { om with nullable := false })
+          | _ => .unsup "object kind"
+    | .cref pkg name _ _ => goZero fuel ss (.ref pkg name {})
+    | _ => .unsup ("type kind " ++ t.kind)
 
 /-- the struct value `*New<name>()` -/
 def goCtor : Nat → Schemas → String → String → CRes GoVal
